@@ -25,12 +25,22 @@ pub mod c19;
 pub mod c20;
 pub mod fac;
 pub mod san;
+pub mod mtab;
+#[cfg(feature = "cluster")]
+pub mod ser;
 #[cfg(feature = "cluster")]
 pub mod tcp;
 
 pub fn dispatch(args: &Args, rep: &mut Report) {
     if args.engine == "san" {
         return san::run(args, rep);
+    }
+    if args.engine == "dtab" || (args.engine == "miri" && (args.prop == "C10" || args.prop == "C11")) {
+        return mtab::run(args, rep);
+    }
+    #[cfg(feature = "cluster")]
+    if args.engine == "ser" {
+        return ser::run(args, rep);
     }
     #[cfg(feature = "cluster")]
     if args.engine == "tcp" {
